@@ -105,6 +105,10 @@ pub fn quiet_panics() {
         if let Ok(mut last) = LAST_PANIC.lock() {
             *last = format!("{msg} at {loc}");
         }
+        // development aid: VERIF_BT=1 prints the backtrace of every panic
+        if std::env::var("VERIF_BT").is_ok() {
+            eprintln!("PANIC {msg} at {loc}\n{}", std::backtrace::Backtrace::force_capture());
+        }
     }));
 }
 
